@@ -153,7 +153,10 @@ def unitParse (T : Tables) (s : Str) : Except Err (UnitId × Frac) :=
   match (if expTxt = [] then some Frac.one else Frac.fromString expTxt) with
   | none => .error .badExponent
   | some exp =>
-    if [' ', '#'].isPrefixOf body then .ok (.sys (body.drop 1), exp) else
+    if [' ', '#'].isPrefixOf body then
+      -- unitid = string[1:]; if unitid not in QUANTITY_UNITS: raise
+      if (T.findSys (body.drop 1)).isSome then .ok (.sys (body.drop 1), exp) else .error .unknownSys
+    else
     match findBase T body with
     | none => .error .unknownUnit
     | some base =>
